@@ -213,6 +213,29 @@ func c03Pairs(c *Ctx, r *rng.R) {
 			b, rel = gv.Gen(r, t, cfg, 2), "independent"
 		}
 	}
+	if r.Chance(10) {
+		// two sets of structured members, one wholly known, the other with an unknown inside one member: whatever
+		// Equals answers, it answers the same in both directions
+		et := []*gt.T{{K: gt.Tuple, Elems: []*gt.T{gt.P(gt.Num), gt.P(gt.Str)}}, {K: gt.List, Elem: gt.P(gt.Num)},
+			{K: gt.Obj, Attrs: []gt.Attr{{Name: "a", T: gt.P(gt.Num)}, {Name: "b", T: gt.P(gt.Bool)}}}, {K: gt.Set, Elem: gt.P(gt.Str)}}[r.Intn(4)]
+		st := &gt.T{K: gt.Set, Elem: et}
+		a = gv.Gen(r, st, gv.KnownCfg, 2)
+		b, rel = a, "member-partly-unknown"
+		if a.IsKnown() && !a.IsNull() && a.LengthInt() > 0 {
+			ms := a.AsValueSlice()
+			k := r.Intn(len(ms))
+			for try := 0; try < 6; try++ {
+				if w := gv.Weaken(r, ms[k], 60, false); !w.RawEquals(ms[k]) && w.IsKnown() {
+					ms[k] = w
+					break
+				}
+			}
+			if r.Chance(30) {
+				ms = append(ms, gv.Gen(r, et, gv.KnownCfg, 1))
+			}
+			b = cty.SetVal(ms)
+		}
+	}
 	if !stringsOK(a) || !stringsOK(b) {
 		c.Count("skipped_quote_domain")
 		return
@@ -578,13 +601,42 @@ func c03History(c *Ctx, r *rng.R) {
 	}
 	if len(cluster) >= 2 && r.Chance(60) {
 		script = []int{0, 0, 0, 7, 4, 9, 9}
+	} else if r.Chance(35) {
+		// results of the algebra with an empty operand are sets of their own: fill r0, make an empty r1 = r0 - r0,
+		// combine r0 with r1 (either way round), change the result, read r0 and the result again
+		script = []int{0, 0, 100, 101, 102, 103, 109, 110, 109}
+		cluster = []cty.Value{pool[r.Intn(len(pool))], pool[r.Intn(len(pool))]}
+		if steps < len(script) {
+			steps = len(script)
+		}
 	}
+	forceKind := -1
 	for k := 0; k < steps; k++ {
 		i := r.Intn(len(regs))
 		j := r.Intn(len(regs))
 		v := pool[r.Intn(len(pool))]
 		forced := -1
-		if k < len(script) {
+		forceKind = -1
+		if k < len(script) && script[k] >= 100 {
+			switch script[k] {
+			case 100:
+				forced, i, j, forceKind = 8, 0, 0, 2
+			case 101:
+				forced, forceKind = 8, r.Intn(4)
+				i, j = 0, len(regs)-1
+				if r.Bool() && forceKind != 2 {
+					i, j = j, i
+				}
+			case 102:
+				forced, i = 0, len(regs)-1
+			case 103:
+				forced, i, v = 4, len(regs)-1, cluster[0]
+			case 109:
+				forced, i = 9, []int{0, len(regs) - 1}[k%2]
+			case 110:
+				forced, i = 10, 0
+			}
+		} else if k < len(script) {
 			forced = script[k]
 			if forced == 0 {
 				i, v = 0, cluster[k%len(cluster)]
@@ -674,6 +726,9 @@ func c03History(c *Ctx, r *rng.R) {
 			hdesc = append(hdesc, fmt.Sprintf("r%d = r%d.Copy()", len(regs)-1, i))
 		case 8: // algebra
 			kind := r.Intn(4)
+			if forceKind >= 0 {
+				kind = forceKind
+			}
 			var s cty.ValueSet
 			var m []cty.Value
 			name := []string{"SUnion", "SInter", "SSub", "SSym"}[kind]
